@@ -142,12 +142,14 @@ def small_float_tables():
     return {"f32": f32, "f64": f64}
 
 
-# operands for fma: products that are inexact, cancellation, exact cases, specials
+# operands for fma: products that are inexact, cancellation, exact cases, zeros.  No infinities and no NaNs:
+# an operation whose result is a NaN (or that overflows) is not a constant expression (GCC rejects inf - inf,
+# clang 14 every NaN result), which is the language's rule, not the library's
 def fma_tables():
     f32 = [0x3DCCCCCD, 0x41200000, 0xBF800000, 0x3F800000, 0x3F800001, 0x3F7FFFFF, 0x00000000, 0x80000000,
-           0x7FC00000, 0x4B800001, 0xCB800001, 0x34000000, 0x00800000]
+           0x4B800001, 0xCB800001, 0x34000000, 0x00800000]
     f64 = [0x3FB999999999999A, 0x4024000000000000, 0xBFF0000000000000, 0x3FF0000000000000, 0x3FF0000000000001,
-           0x3FEFFFFFFFFFFFFF, 0x0000000000000000, 0x8000000000000000, 0x7FF8000000000000,
+           0x3FEFFFFFFFFFFFFF, 0x0000000000000000, 0x8000000000000000,
            0x4350000000000001, 0xC350000000000001, 0x3CB0000000000000, 0x0010000000000000]
     return {"f32": f32, "f64": f64}
 
